@@ -17,6 +17,10 @@ SVD = "functions.fdd.SD_svalsvec"
 
 
 def check(prog, run):
+    run.rule("R-dtype", "the returned frequencies are stored in a floating-point table whatever the caller typed (no table allocated like an argument that was converted "
+             "without a dtype receives values of another origin)", 0)
+    reach_ = sorted(q_ for q_ in prog.reachable([prog.func("functions.fdd.FDD_mpe").qual]) if q_ in prog.functions and not q_.startswith("pyoma2.functions.plot"))
+    astq.inherited_dtype_rule(prog, run, "R-dtype", reach_)
     run.rule("R-band", "band limits = argmin |freq - (sel - DF)|, argmin |freq - (sel + DF)| on the same grid", 2)
     run.rule("R-ratio", "scanned quantity = Sval[0,0,a:b] / Sval[1,1,a:b] over one slice; selection = arg-max of it", 3)
     run.rule("R-rebase", "frequency and vector are read at slice origin + relative index", 2)
